@@ -4,6 +4,7 @@ CONSTANTS
   ViolKinds = {"v_undecl", "v_bogus", "v_define", "v_str"}
   MaxItems = 2
   MinItems = 0
+  MaxCmt = 0
   Devs = {}
   Emit = FALSE
 INVARIANTS Inv_Refines
